@@ -153,3 +153,23 @@ V("c14-pdag2dag-writes-P", "C14", "fire", UT, "                for j in real_nei
 V("c14-silent-copy-spelling", "C14", "silent", LG, "        W = self.W.copy()\n", "        W = np.array(self.W)\n", what="np.array copies")
 V("c14-silent-deepcopy", "C14", "silent", ND, "        self.mean = mean.copy()\n", "        import copy\n        self.mean = copy.deepcopy(mean)\n", what="deepcopy for copy()")
 V("c14-silent-local-mutation", "C14", "silent", UT, "    S = list(S)\n    subgraph = A[S, :][:, S]\n", "    S = list(S)\n    S.sort()\n    subgraph = A[S, :][:, S]\n", what="mutating a fresh local list")
+
+# ------------------------------------------------------------------------------- C05
+V("c05-cov-sign", "C05", "fire", ND, "covariance = cov_y - cov_yx @ np.linalg.inv(cov_x) @ cov_xy", "covariance = cov_y + cov_yx @ np.linalg.inv(cov_x) @ cov_xy", rule="FORMULA.conditional.covariance", what="Schur complement sign")
+V("c05-mean-noshift", "C05", "fire", ND, "mean = mean_y + cov_yx @ np.linalg.inv(cov_x) @ (x - mean_x)", "mean = mean_y + cov_yx @ np.linalg.inv(cov_x) @ x", rule="FORMULA.conditional.mean", what="x not centred")
+V("c05-mean-inv-cov-y", "C05", "fire", ND, "mean = mean_y + cov_yx @ np.linalg.inv(cov_x) @ (x - mean_x)", "mean = mean_y + cov_yx @ np.linalg.inv(cov_y) @ (x - mean_x)", rule="FORMULA.conditional.mean", what="wrong block inverted", accept_inconclusive=True)
+V("c05-block-transposed", "C05", "fire", ND, "cov_yx = utils.matrix_block(self.covariance, Y, X)", "cov_yx = utils.matrix_block(self.covariance, X, X)", rule="FORMULA", what="wrong block", accept_inconclusive=True)
+V("c05-sorted-Y", "C05", "fire", ND, "        Y = np.atleast_1d(Y)\n        X = np.atleast_1d(X)\n        x = np.atleast_1d(x)", "        Y = np.sort(np.atleast_1d(Y))\n        X = np.atleast_1d(X)\n        x = np.atleast_1d(x)", rule="FORMULA", what="requested order of Y lost")
+V("c05-unique-X", "C05", "fire", ND, "        Y = np.atleast_1d(Y)\n        X = np.atleast_1d(X)\n        x = np.atleast_1d(x)", "        Y = np.atleast_1d(Y)\n        X = np.unique(X)\n        x = np.atleast_1d(x)", rule=None, what="X reordered, x no longer paired")
+V("c05-marginal-sorted", "C05", "fire", ND, "        X = np.atleast_1d(X)\n        # Compute marginal mean/variance", "        X = np.array(sorted(np.atleast_1d(X)))\n        # Compute marginal mean/variance", rule="FORMULA.marginal", what="marginal sorts the indices")
+V("c05-matrix-block-swapped", "C05", "fire", UT, "    return M[rows, :][:, cols]", "    return M[cols, :][:, rows]", rule="FORMULA", what="matrix_block transposes the selection")
+V("c05-no-overlap-guard", "C05", "fire", ND, "        if len(set(Y) & set(X)) > 0:\n            raise ValueError(\"X and Y are not disjoint.\")\n", "", rule="GUARD.conditional.overlap", what="overlap guard dropped")
+V("c05-len-guard-lt", "C05", "fire", ND, "if len(X) != len(x):", "if len(X) < len(x):", rule="GUARD.conditional.len", what="size guard one-sided")
+V("c05-guard-after-inv", "C05", "fire", ND, "        if len(set(Y) & set(X)) > 0:\n            raise ValueError(\"X and Y are not disjoint.\")\n        # Conditioning on nothing = marginalizing\n        if len(X) == 0:\n            return self.marginal(Y)\n",
+  "        # Conditioning on nothing = marginalizing\n        if len(X) == 0:\n            return self.marginal(Y)\n        if len(set(Y) & set(X)) > 0:\n            raise ValueError(\"X and Y are not disjoint.\")\n", rule="GUARD.conditional.overlap", what="overlap accepted when X is empty path / guard after result")
+V("c05-ctor-guard-dropped", "C05", "fire", ND, "        if len(mean) != len(covariance):\n            raise ValueError(\"Mismatch in the size of mean vector and covariance matrix.\")\n", "", rule="GUARD.ctor", what="constructor size check dropped")
+V("c05-empty-returns-marginal-X", "C05", "fire", ND, "            return self.marginal(Y)\n        # See", "            return self.marginal(X)\n        # See", rule="EMPTY", what="empty conditioning marginalises the wrong set")
+V("c05-silent-solve", "C05", "silent", ND, "mean = mean_y + cov_yx @ np.linalg.inv(cov_x) @ (x - mean_x)", "mean = mean_y + cov_yx @ np.linalg.solve(cov_x, x - mean_x)", what="solve for inv @")
+V("c05-silent-transposed-block", "C05", "silent", ND, "covariance = cov_y - cov_yx @ np.linalg.inv(cov_x) @ cov_xy", "covariance = cov_y - cov_yx @ np.linalg.inv(cov_x) @ cov_yx.T", what="C_XY as C_YX^T (symmetric covariance)")
+V("c05-silent-direct-index", "C05", "silent", ND, "cov_x = utils.matrix_block(self.covariance, X, X)", "cov_x = self.covariance[:, X][X, :]", what="direct chained indexing for matrix_block")
+V("c05-silent-guard-spelling", "C05", "silent", ND, "if len(set(Y) & set(X)) > 0:", "if set(X) & set(Y) != set():", what="equivalent overlap test")
